@@ -1,13 +1,25 @@
 #!/usr/bin/env python3
-"""seeded_table.py — markdown table of the seeded-change experiment (seeded/*/meta.json + result-quick.json, round-1 log)"""
-import json, os, re, glob
+"""seeded_table.py — markdown table of the seeded-change experiment: seeded/*/meta.json + result-quick.json (the final
+verdict with the checks as committed) + the first verdict each change got when its round was first run
+(seeded/round1.log, round2_first.log, round3_first.log)."""
+import json, os, re
 root = '/verif/seeded'
-r1 = {}
-for l in open('/verif/seeded/round1.log'):
-    m = re.match(r'(C\d\d-\w+) (caught|missed)', l)
-    if m:
-        r1.setdefault(m.group(1), m.group(2))      # the FIRST verdict of round 1
-rows = []
+first = {}
+for f in ('round1.log', 'round2_first.log', 'round3_first.log'):
+    p = os.path.join(root, f)
+    if not os.path.exists(p):
+        continue
+    for l in open(p):
+        m = re.match(r'(C\d\d-[\w.]+) (caught|missed)', l)
+        if m:
+            first.setdefault(m.group(1), m.group(2))      # the FIRST verdict
+
+
+def rnd(d):
+    return 3 if '-r3.' in d else 2 if '-r2.' in d else 1
+
+
+rows, tot = [], {1: [0, 0, 0], 2: [0, 0, 0], 3: [0, 0, 0]}
 for d in sorted(os.listdir(root)):
     p = os.path.join(root, d)
     if not os.path.isdir(p):
@@ -16,9 +28,16 @@ for d in sorted(os.listdir(root)):
     res = json.load(open(os.path.join(p, 'result-quick.json'))) if os.path.exists(os.path.join(p, 'result-quick.json')) else {}
     title = (meta.get('title') or '').replace('|', '/').strip()
     fv = (res.get('first_violation') or '').split(':')[0].split(' in scenario')[0][:60]
-    rows.append('| %s | %s | %s | %s | %s | %s |' % (d, meta.get('subtlety', ''), title[:150], r1.get(d, 'n/a'), res.get('verdict', 'not run'), fv))
-print('| id | subtlety | change (one line) | round 1 | now | reported as |')
-print('|----|----------|-------------------|---------|-----|-------------|')
+    if res.get('no_failing_input_found'):
+        fv = 'broken obligation / correspondence (no-failing-input-found)'
+    r = rnd(d)
+    tot[r][0] += 1
+    tot[r][1] += first.get(d) == 'caught'
+    tot[r][2] += res.get('verdict') == 'caught'
+    rows.append('| %s | %d | %s | %s | %s | %s | %s |' % (d, r, meta.get('subtlety', ''), title[:140], first.get(d, 'n/a'), res.get('verdict', 'not run'), fv))
+print('| id | round | subtlety | change (one line) | first verdict | now | reported as |')
+print('|----|-------|----------|-------------------|---------------|-----|-------------|')
 print('\n'.join(rows))
-c1 = sum(1 for v in r1.values() if v == 'caught')
-print('\nround 1: %d of %d caught; now: %d of %d caught.' % (c1, len(r1), sum(1 for r in rows if '| caught |' in r.replace(r.split('|')[4], '', 0) and r.split('|')[5].strip() == 'caught'), len(rows)))
+print()
+for r in (1, 2, 3):
+    print('round %d: %d changes, %d caught at first, %d caught now.' % (r, tot[r][0], tot[r][1], tot[r][2]))
